@@ -131,7 +131,9 @@ fn err_name(e: &DaachorseError) -> &'static str {
     }
 }
 
-struct CountIter<'a> { data: &'a [u8], pos: usize, cnt: Rc<Cell<usize>> }
+// A counting byte source.  With hint = true it reports the exact remaining length through
+// size_hint (like slice::Iter / str::Bytes), with hint = false the default (0, None).
+struct CountIter<'a> { data: &'a [u8], pos: usize, cnt: Rc<Cell<usize>>, hint: bool }
 impl Iterator for CountIter<'_> {
     type Item = u8;
     fn next(&mut self) -> Option<u8> {
@@ -139,6 +141,9 @@ impl Iterator for CountIter<'_> {
         self.pos += 1;
         self.cnt.set(self.cnt.get() + 1);
         Some(b)
+    }
+    fn size_hint(&self) -> (usize, Option<usize>) {
+        if self.hint { let r = self.data.len() - self.pos; (r, Some(r)) } else { (0, None) }
     }
 }
 fn ticks() -> u64 { daachorse::verif_ticks::verif_ticks() }
@@ -159,8 +164,8 @@ macro_rules! fmt_matches {
         dt
     }};
 }
-macro_rules! fmt_pulls {
-    ($out:expr, $tag:expr, $j:expr, $cnt:expr, $it:expr) => {{
+macro_rules! pulls_str {
+    ($cnt:expr, $it:expr) => {{
         let r = catch_unwind(AssertUnwindSafe(|| {
             let mut s = String::new();
             let mut it = $it;
@@ -172,10 +177,19 @@ macro_rules! fmt_pulls {
             }
             s
         }));
-        match r {
-            Ok(s) => { writeln!($out, "{} {}{}", $tag, $j, s).unwrap(); }
-            Err(_) => { writeln!($out, "{} {} !panic", $tag, $j).unwrap(); }
-        }
+        match r { Ok(s) => s, Err(_) => String::from(" !panic") }
+    }};
+}
+// the byte-iterator entry point is run on two sources (without and with an exact size_hint);
+// the line carries the first result, and the second one too when they differ
+macro_rules! fmt_pulls {
+    ($out:expr, $tag:expr, $j:expr, $data:expr, $src:ident, $call:expr) => {{
+        let cnt = Rc::new(Cell::new(0usize));
+        let s1 = { let $src = CountIter { data: $data, pos: 0, cnt: cnt.clone(), hint: false }; pulls_str!(cnt, $call) };
+        let cnt = Rc::new(Cell::new(0usize));
+        let s2 = { let $src = CountIter { data: $data, pos: 0, cnt: cnt.clone(), hint: true }; pulls_str!(cnt, $call) };
+        if s1 == s2 { writeln!($out, "{} {}{}", $tag, $j, s1).unwrap(); }
+        else { writeln!($out, "{} {}{} !with-size-hint:{}", $tag, $j, s1, s2).unwrap(); }
     }};
 }
 
@@ -187,12 +201,9 @@ fn bw_searches<V: Val>(pma: &DoubleArrayAhoCorasick<V>, c: &Case, pre: &str, out
             let t2 = fmt_matches!(out, format!("{pre}FIND"), j, pma.find_iter(h));
             let t3 = fmt_matches!(out, format!("{pre}NOS"), j, pma.find_overlapping_no_suffix_iter(h));
             writeln!(out, "{pre}TICKS {j} {t1} {t2} {t3}").unwrap();
-            let cnt = Rc::new(Cell::new(0usize));
-            fmt_pulls!(out, format!("{pre}OVLI"), j, cnt, pma.find_overlapping_iter_from_iter(CountIter { data: h, pos: 0, cnt: cnt.clone() }));
-            let cnt = Rc::new(Cell::new(0usize));
-            fmt_pulls!(out, format!("{pre}FINDI"), j, cnt, pma.find_iter_from_iter(CountIter { data: h, pos: 0, cnt: cnt.clone() }));
-            let cnt = Rc::new(Cell::new(0usize));
-            fmt_pulls!(out, format!("{pre}NOSI"), j, cnt, pma.find_overlapping_no_suffix_iter_from_iter(CountIter { data: h, pos: 0, cnt: cnt.clone() }));
+            fmt_pulls!(out, format!("{pre}OVLI"), j, h, src, pma.find_overlapping_iter_from_iter(src));
+            fmt_pulls!(out, format!("{pre}FINDI"), j, h, src, pma.find_iter_from_iter(src));
+            fmt_pulls!(out, format!("{pre}NOSI"), j, h, src, pma.find_overlapping_no_suffix_iter_from_iter(src));
         } else {
             let t1 = fmt_matches!(out, format!("{pre}LEFT"), j, pma.leftmost_find_iter(h));
             writeln!(out, "{pre}TICKS {j} {t1}").unwrap();
@@ -346,12 +357,9 @@ fn cw_searches<V: Val>(pma: &CharwiseDoubleArrayAhoCorasick<V>, c: &Case, pre: &
             let t2 = fmt_matches!(out, format!("{pre}FIND"), j, pma.find_iter(h));
             let t3 = fmt_matches!(out, format!("{pre}NOS"), j, pma.find_overlapping_no_suffix_iter(h));
             writeln!(out, "{pre}TICKS {j} {t1} {t2} {t3}").unwrap();
-            let cnt = Rc::new(Cell::new(0usize));
-            fmt_pulls!(out, format!("{pre}OVLI"), j, cnt, unsafe { pma.find_overlapping_iter_from_iter(CountIter { data: hb, pos: 0, cnt: cnt.clone() }) });
-            let cnt = Rc::new(Cell::new(0usize));
-            fmt_pulls!(out, format!("{pre}FINDI"), j, cnt, unsafe { pma.find_iter_from_iter(CountIter { data: hb, pos: 0, cnt: cnt.clone() }) });
-            let cnt = Rc::new(Cell::new(0usize));
-            fmt_pulls!(out, format!("{pre}NOSI"), j, cnt, unsafe { pma.find_overlapping_no_suffix_iter_from_iter(CountIter { data: hb, pos: 0, cnt: cnt.clone() }) });
+            fmt_pulls!(out, format!("{pre}OVLI"), j, hb, src, unsafe { pma.find_overlapping_iter_from_iter(src) });
+            fmt_pulls!(out, format!("{pre}FINDI"), j, hb, src, unsafe { pma.find_iter_from_iter(src) });
+            fmt_pulls!(out, format!("{pre}NOSI"), j, hb, src, unsafe { pma.find_overlapping_no_suffix_iter_from_iter(src) });
         } else {
             let t1 = fmt_matches!(out, format!("{pre}LEFT"), j, pma.leftmost_find_iter(h));
             writeln!(out, "{pre}TICKS {j} {t1}").unwrap();
